@@ -147,6 +147,8 @@ def run(ctx):
         'D2 for each reference phase: H(T_ref)=H_ref, S(T_ref,P_ref)=S0, one +1 integral of the matching-phase Cn per functor '
         '(=> dH/dT=Cn, dS/dT=Cn/T), only gas S depends on P through -R log(P/P_ref), jumps at Tb/Tm equal Hvap/Hfus (/T for S)',
         'D3 mixture models are sum_i n_i f_i over stored entries; entropy mixing term coefficient is -R; excess only when enabled',
+        'D5 every constant a setter patches into existing functors by attribute name (S0, Hfus, Sfus) is bound, in _init_energies, to the functor parameter of '
+        'that name (writer/reader agreement; otherwise the setter silently stops reaching that functor)',
         'D4 typestate: after a public Chemical method changes a model or constant that the H/S functors freeze (the arguments '
         'reset_free_energies hands to _init_energies), the functors are rebuilt on every normal path before the method returns',
     ]
@@ -166,12 +168,40 @@ def run(ctx):
     r2 = ctx.rule('D2', 'reference-state, derivative, pressure and phase-jump identities (D-lin)', floor=27)
     fe = prog.method('Chemical', '_init_energies', rel=CH)
 
+    # ---- D5: constants that a setter patches into the functors BY ATTRIBUTE NAME (reset_energy_constant(self, 'S0', ...)) must be
+    # bound to the functor parameter of that very name wherever _init_energies hands them over (functor attributes are the parameter names)
+    r5 = ctx.rule('D5', 'constants patched by name are bound to the functor parameter of that name', floor=6)
+    ch_mod = prog.module(CH)
+    patched = set()
+    chem_cls = prog.cls('Chemical', CH)
+    for g_ in list(chem_cls.methods.values()) + list(chem_cls.setters.values()):
+        for n in walk_no_nested(g_.node):
+            if isinstance(n, ast.Call) and isinstance(n.func, ast.Name) and n.func.id in ch_mod.functions and len(n.args) >= 2 \
+                    and isinstance(n.args[1], ast.Constant) and isinstance(n.args[1].value, str):
+                helper = ch_mod.functions[n.func.id]
+                # the helper sets the attribute called <its 2nd parameter> on the energy handles
+                # (a call f(obj, <2nd parameter>, ...) on something other than the chemical itself, inside a loop over the module's table of energy handles)
+                if any(isinstance(m_, ast.Call) and len(m_.args) >= 2 and src(m_.args[1]) == helper.params[1] and src(m_.args[0]) != helper.params[0]
+                       for m_ in walk_no_nested(helper.node)) \
+                        and any(isinstance(m_, ast.For) and isinstance(m_.iter, ast.Name) and 'energy' in m_.iter.id for m_ in walk_no_nested(helper.node)):
+                    patched.add(n.args[1].value)
+    ctx.anchor(len(patched) >= 2, 'Chemical: expected >= 2 constants patched into the functors by name, found %s' % sorted(patched))
+    ctx.extra['C07_patched'] = patched
+
     # ---- D1 direct X.functor(...) calls
     for n in ast.walk(fe.node):
         if isinstance(n, ast.Call) and isinstance(n.func, ast.Attribute) and n.func.attr == 'functor' \
                 and isinstance(n.func.value, ast.Name) and n.func.value.id in functors:
             name = n.func.value.id
             params = functors[name][0]
+            for i_, a_ in enumerate(n.args[:len(params)]):
+                if isinstance(a_, ast.Name) and a_.id in patched:
+                    if params[i_] == a_.id:
+                        r5.ok('Chemical._init_energies', '%s.functor: %s is bound to the parameter of the same name' % (name, a_.id), fe, n)
+                    else:
+                        r5.fail('Chemical._init_energies', 'patched-by-name-%s' % a_.id,
+                                '%s.functor receives %s as its parameter %r, but the %s setter patches existing functors through the attribute %r: '
+                                'the setter no longer reaches this functor' % (name, a_.id, params[i_], a_.id, a_.id), fe, n)
             if len(n.args) == len(params):
                 r1.ok('Chemical._init_energies', '%s.functor(%s) binds %s' % (name, ', '.join(src(a) for a in n.args), params), fe, n)
             else:
@@ -321,6 +351,14 @@ def analyse_ref(ctx, r1, r2, fe, ref, functors, builders):
                     fname, params, dname, len(forms), ', '.join(src(x) for x in elts)), fe, stmt)
                 continue
             r1.ok(cons, '%s%s <- (%s)' % (fname, tuple(params), ', '.join(src(x) for x in elts)), fe, stmt)
+            r5 = next((r_ for r_ in ctx.rules if r_.id.endswith('-D5')), None)
+            for prm_, x_ in zip(params, elts):
+                if isinstance(x_, ast.Name) and x_.id in ctx.extra.get('C07_patched', ()) and r5 is not None:
+                    if prm_ == x_.id:
+                        r5.ok(cons, '%s: %s is bound to the parameter of the same name' % (fname, x_.id), fe, stmt)
+                    else:
+                        r5.fail(cons, 'patched-by-name-%s' % x_.id, '%s receives %s as its parameter %r, but the %s setter patches existing functors through the '
+                                'attribute %r' % (fname, x_.id, prm_, x_.id, x_.id), fe, stmt)
             phase_forms[(kind, ph)] = (finfo, dict(zip(params, forms)), hasP)
 
     if len(phase_forms) != 6:
